@@ -40,7 +40,8 @@ CHECKS = {
                 'Class._compile is tied to the verified fragment by exact text comparison; helper-function closure decided case by case.',
         'design_ref': 'DESIGN.md 6 C05',
         'note': 'As C01. Known findings: let-shadowing clobbers the outer binding; names used in inline Python / repetition bounds are not '
-                'captured when an expression is spilled or passed as an argument. Activation isolation rests on CPython local-variable semantics.',
+                'captured when an expression is spilled or passed as an argument. Activation isolation rests on CPython local-variable semantics. '
+                'The scope tracker SymbolCounter is checked BOUNDED only (every well-nested forest of <= 4 nodes against the stack-of-binders view), not proved.',
     },
     'C07': {
         'category': 'proof',
@@ -147,7 +148,8 @@ CHECKS = {
                 'unchanged to every generator. Schematic obligations on real chains A <- B <- C (ignore none/named/anonymous per level, X overridden '
                 'plainly / via super / not, dotted names): override resolution, context completeness, static super, parent untouched, ignore and start inheritance.',
         'design_ref': 'DESIGN.md 6 C13',
-        'note': 'Wiring exhaustive over the stated family only (rule bodies are placeholders); behavioural rows are ground executions under a 20 s budget.',
+        'note': 'Wiring exhaustive over the stated family only (rule bodies are placeholders); behavioural rows are ground executions under a 20 s budget. '
+                'Known finding on the unchanged tree: B.<Rule>.parse of an INHERITED rule runs in the base context (known_findings.json, DESIGN.md 12).',
     },
     'C11': {
         'category': 'proof',
